@@ -36,6 +36,7 @@ fn main() {
     match prop.as_str() {
         "C01" => props::c01::run(ctx),
         "C06" => props::c06::run(ctx),
+        "C19" => props::c19::run(ctx),
         "C20" => props::c20::run(ctx),
         "C11" => props::c11::run(ctx),
         "C08" => props::c08::run(ctx),
